@@ -1499,7 +1499,12 @@ class Verifier:
             suf = s.pc[k:]
             full.append(z3.And(*suf) if len(suf) > 1 else (suf[0] if suf else z3.BoolVal(True)))
             dec = [c for c in suf if c.get_id() not in s.facts]
-            conds.append(z3.And(*dec) if len(dec) > 1 else (dec[0] if dec else z3.BoolVal(True)))
+            if not dec:
+                # this state differs from the others by no DECISION (a nondeterministic fork: an abstract callee that
+                # may or may not raise, an opaque value that may or may not decode ...): it must not win the merge
+                # unconditionally - a fresh, unconstrained selector keeps both outcomes possible
+                dec = [z3.Bool(fresh_name('either'))]
+            conds.append(z3.And(*dec) if len(dec) > 1 else dec[0])
         out = State()
         out.pc = list(first[:k]) + [z3.Or(*full)]
         for s in states:
